@@ -19,7 +19,7 @@ PROP = {
          "thorough": {"cases": 400000, "max_size": 100, "workers": 4, "case_alarm": 120}},
     ],
     "assumptions": [
-        "routine scripts obey cancellation as the API requires of users: isCanceled() is checked before every step and a failed recv/lock/acquire/bcast.wait makes the entry function return",
+        "routine scripts obey cancellation as the API requires of users: a routine either polls isCanceled() before every step, or never polls and returns when a blocking call fails (at the latest after the third failed blocking call); a routine that is already cancelled does not create routines",
         "lock/unlock/recv/acquire/waits/join are only called from routines; send/release/post/resume/cancel/create/cleanup also from the main context (as the unit tests do)",
     ],
 }
